@@ -280,7 +280,18 @@ def update_lbfgs_matrices(
         # )
         # However, we can also factorize its inverse and obtain very fast matrix
         # products: lower triangle of M inverse
-        mats.invMfactors = form_invMfactors(mats.theta, STS, mats.L, mats.D)
+        try:
+            mats.invMfactors = form_invMfactors(mats.theta, STS, mats.L, mats.D)
+        except np.linalg.LinAlgError:
+            # nonpositive definiteness in the Cholesky factorization (info != 0 in
+            # formt of Algorithm 778): refresh the lbfgs memory, i.e., keep the newest
+            # stored point only and restart from the scaled identity
+            x_last, g_last = X[-1], G[-1]
+            X.clear()
+            G.clear()
+            X.append(x_last)
+            G.append(g_last)
+            return LBFGSB_MATRICES(xk.size)
 
         # Test the factorization on the fly.
         if is_check_factorization:
